@@ -42,8 +42,8 @@ ASSUMPTIONS = [
     "runs hit by the recorded Anderson finding are excluded by using aa_depth = 0 here (C04 owns that finding)",
 ]
 FLOORS = {
-    "quick": {"identity_zero": 90, "swap_symmetric": 180, "scaling_linear": 250, "first_moment_bound": 650, "true_minimum_bound": 140, "thin_grid_unique_flux": 150, "frontend_equals_backend": 400, "emd": 300, "emd_object_reused_across_cases": 20},
-    "thorough": {"identity_zero": 450, "swap_symmetric": 1300, "scaling_linear": 1800, "first_moment_bound": 6000, "true_minimum_bound": 1100, "thin_grid_unique_flux": 2300, "frontend_equals_backend": 3000, "emd": 2000, "emd_object_reused_across_cases": 200},
+    "quick": {"identity_zero": 90, "swap_symmetric": 180, "scaling_linear": 250, "first_moment_bound": 650, "true_minimum_bound": 140, "thin_grid_unique_flux": 150, "frontend_equals_backend": 400, "emd": 300, "emd_object_reused_across_cases": 20, "options_dictionary_reused": 50},
+    "thorough": {"identity_zero": 450, "swap_symmetric": 1300, "scaling_linear": 1800, "first_moment_bound": 6000, "true_minimum_bound": 1100, "thin_grid_unique_flux": 2300, "frontend_equals_backend": 3000, "emd": 2000, "emd_object_reused_across_cases": 200, "options_dictionary_reused": 500},
 }
 SHARD_TIMEOUT = {"quick": 1500, "thorough": 6000}
 LAW_GRIDS = [(9,), (30,), (4, 5), (1, 12), (8, 8), (12, 10), (3, 3, 3), (4, 5, 6), (2, 1, 9), (17, 16)]
@@ -119,8 +119,10 @@ def run_shard(spec, R):
             return _solve(method, m1, m2, opt, weight, frontend)
         finally:
             # the options dictionary is the caller's: it may be used for the next computation with other values
-            R.check(snap({k: v for k, v in opt.items() if not callable(v)}) == opt_before, "options_untouched",
-                    lambda: {"method": method, "frontend": frontend, "keys_after": sorted(map(str, opt.keys()))}, group=f"{method}/{frontend}")
+            # (observation only: leaving arguments untouched is C17's business; what a modified dictionary does to the
+            # next computation that is given the same dictionary is judged in the thin-grid family below)
+            if snap({k: v for k, v in opt.items() if not callable(v)}) != opt_before:
+                R.count("observation:options_modified_by_library")
 
     def _solve(method, m1, m2, opt, weight, frontend):
         if frontend:
@@ -237,6 +239,17 @@ def run_shard(spec, R):
                 R.check(out[0] >= fm - 1e-9 * max(fm, abs(out[0])), "first_moment_bound", {**desc, "distance": out[0], "bound": fm})
                 R.check(abs(out[0] - exp) <= 1e-9 * max(exp, 1e-300), "thin_grid_unique_flux",
                         {**desc, "distance": out[0], "cost_of_unique_flux": exp, "converged": bool(out[1]["converged"])}, group=f"{c['method']}/{c['mob']}")
+                # one options dictionary, built once and re-used by the caller with another penalty L for the next
+                # computation (Bregman): the second result is still the cost of the unique flux
+                if c["method"].startswith("bregman") and c["id"] % 2 == 0:
+                    optr = wass.make_options(darsia, c["method"], c["l1"], c["mob"], "pressure", "direct", 0, 8, None)
+                    for Lval in (float(rng.choice([0.5, 2.0, 5.0])), float(rng.choice([0.25, 1.0, 8.0]))):
+                        optr["L"] = Lval
+                        okr, outr = R.guarded("thin_grid_unique_flux", lambda: wass.solver_class(darsia, c["method"])(darsia.generate_grid(m1), None, optr)(m1, m2))
+                        if okr:
+                            R.check(abs(float(outr[0]) - exp) <= 1e-9 * max(exp, 1e-300), "thin_grid_unique_flux",
+                                    {**desc, "what": "options dictionary re-used with another L", "L": Lval, "distance": float(outr[0]), "cost_of_unique_flux": exp}, group="options_reused")
+                            R.count("options_dictionary_reused")
             continue
 
         if fam == "minimum":
